@@ -48,3 +48,11 @@ B("C05", "rename-local", A, "            self.segmentCount, more = divmod(len(ap
   "            self.segmentCount, rest = divmod(len(apdu.pduData), self.segmentSize)\n            if rest:\n                self.segmentCount += 1\n        if _debug: ClientSSM")
 M("C05", "nak-handed-to-application", "appservice.py", "            segack = SegmentAckPDU(1, 0, self.invokeID, self.lastSequenceNumber, self.actualWindowSize)\n            self.request(segack)", "            segack = SegmentAckPDU(1, 0, self.invokeID, self.lastSequenceNumber, self.actualWindowSize)\n            self.response(segack)", ["C05.R4", "C04.R1"], "client's negative ack never leaves the host")
 M("C05", "server-window-own-only", "appservice.py", "        self.actualWindowSize = min(apdu.apduWin, self.ssmSAP.proposedWindowSize)\n        if _debug: ServerSSM", "        self.actualWindowSize = self.ssmSAP.proposedWindowSize\n        if _debug: ServerSSM", ["C05.R9", "C12.R4"])
+M("C05", "final-ack-any-in-window", "appservice.py", "            elif self.sentAllSegments and (apdu.apduSeq == (self.segmentCount - 1) % 256):", "            elif self.sentAllSegments:", "C05.R5", "KF-26 returns (server side)", nth=2, of=2)
+M("C05", "final-ack-any-in-window-client", "appservice.py", "            elif self.sentAllSegments and (apdu.apduSeq == (self.segmentCount - 1) % 256):", "            elif self.sentAllSegments:", "C05.R5", "KF-26 returns (client side)", nth=1, of=2)
+M("C05", "final-ack-off-by-one", "appservice.py", "            elif self.sentAllSegments and (apdu.apduSeq == (self.segmentCount - 1) % 256):", "            elif self.sentAllSegments and (apdu.apduSeq == self.segmentCount % 256):", "C05.R5", nth=2, of=2)
+B("C05", "final-ack-respelled", "appservice.py", "            elif self.sentAllSegments and (apdu.apduSeq == (self.segmentCount - 1) % 256):", "            elif (apdu.apduSeq == (self.segmentCount + 255) % 256) and self.sentAllSegments:", nth=2, of=2)
+M("C05", "receiver-waits-one-tseg", "appservice.py", "        self.set_state(SEGMENTED_REQUEST, self.segmentTimeout * 4)", "        self.set_state(SEGMENTED_REQUEST, self.segmentTimeout)", "C05.R10", "KF-27 returns (server receiving a request)")
+M("C05", "receiver-rearm-one-tseg", "appservice.py", "            self.restart_timer(self.segmentTimeout * 4)", "            self.restart_timer(self.segmentTimeout)", "C05.R10", nth=3, of=7)
+M("C05", "sender-waits-four-tseg", "appservice.py", "                self.set_state(SEGMENTED_RESPONSE, self.segmentTimeout)", "                self.set_state(SEGMENTED_RESPONSE, self.segmentTimeout * 4)", "C05.R10", "sender as slow as the receiver")
+B("C05", "receiver-timeout-respelled", "appservice.py", "        self.set_state(SEGMENTED_REQUEST, self.segmentTimeout * 4)", "        self.set_state(SEGMENTED_REQUEST, 4 * self.segmentTimeout)")
